@@ -888,6 +888,137 @@ def q11(rep):
     rep.floor("integer divisions by an operand in the constant folder", n, 6)
 
 
+DFLOW_CLEANUP = ("fprintf", "afprintf", "fputs", "fnewline", "printf", "flogPrint", "flogClearMarks", "dflowFreeGraphInfo", "bitvClassDestroy")
+
+
+def q12(rep):
+    """The passes built on the generic dataflow engine (dflowFwdIterate / dflowRevIterate) give it an iteration limit.  The
+    engine returns non-zero when it stopped at the limit: the in/out sets then under-approximate the fixed point (facts travel
+    one block per iteration), and a transformation driven by them is wrong for facts that have not arrived.  Every pass must
+    therefore drop the results on that outcome.  On the CFG of each caller: from the call, following at every test of the
+    returned value only the did-not-converge side, no call other than debugging output and release of the sets is reachable."""
+    units = ["usedef.c", "of_comex.c", "of_cprop.c", "of_deada.c", "of_jflow.c", "of_killp.c"]
+    n = 0
+    for u in units:
+        f = common.extract(u, all_trees=True, all_cfg=True)
+        for name, fn in sorted(f.funcs.items()):
+            if "body" not in fn or not fn.get("file", "").endswith(u):
+                continue
+            its = [c for c in calls(fn["body"]) if c.get("callee") in ("dflowFwdIterate", "dflowRevIterate")]
+            if not its:
+                continue
+            par = common.parents(fn["body"])
+            cfg = common.CFG(fn)
+            for it in its:
+                n += 1
+                # the variable that receives the verdict
+                p_ = par.get(it["id"])
+                while p_ is not None and p_["k"] in ("ParenExpr", "ImplicitCastExpr", "CStyleCastExpr"):
+                    p_ = par.get(p_["id"])
+                var = None
+                if p_ is not None and p_["k"] == "BinaryOperator" and p_["op"] == "=":
+                    l = strip(p_["c"][0])
+                    if l is not None and l["k"] == "DeclRefExpr":
+                        var = l["n"]
+                key = "unconverged-results-dropped:%s:%s" % (u, name)
+                where = "%s:%d (%s)" % (u, it["l"], name)
+                if var is None:
+                    rep.violation("Q12", key, where, "the verdict of %s (non-zero: stopped at the iteration limit) is not kept: the "
+                                  "sets are used whether or not the iteration converged" % it.get("callee"))
+                    continue
+                ev = cfg.events(lambda e, it=it: e.get("id") == it["id"])
+                if not ev:
+                    raise AnalysisBroken("%s %s: the dataflow call is not in the CFG" % (u, name))
+                b0, i0, _ = ev[0]
+
+                def side(bid, succ, var=var):
+                    """at a test of the verdict follow only the did-not-converge successor"""
+                    ce = cfg.cond_edges(bid)
+                    if ce is None or ce[0] is None:
+                        return True
+                    c = strip(ce[0])
+                    if c is None:
+                        return True
+                    pol = None          # True: condition true means NOT converged
+                    if c["k"] == "DeclRefExpr" and c["n"] == var:
+                        pol = True
+                    elif c["k"] == "UnaryOperator" and c["op"] == "!" and (strip(c["c"][0]) or {}).get("n") == var:
+                        pol = False
+                    elif c["k"] == "BinaryOperator" and c["op"] in ("!=", "==", ">") and const_value(c["c"][1]) == 0 and \
+                            (strip(c["c"][0]) or {}).get("n") == var:
+                        pol = c["op"] != "=="
+                    if pol is None:
+                        return True
+                    return succ == (ce[1] if pol else ce[2])
+
+                def reassigned(e, var=var):
+                    if e["k"] == "BinaryOperator" and e["op"] == "=":
+                        l = strip(e["c"][0])
+                        return l is not None and l["k"] == "DeclRefExpr" and l["n"] == var and e.get("id") != p_["id"]
+                    return False
+
+                def consumer(e):
+                    return e["k"] == "CallExpr" and e.get("id") != it["id"] and e.get("callee") not in DFLOW_CLEANUP and \
+                        not (e.get("callee") or "").lower().endswith("free") and e.get("callee") is not None
+                pth = cfg.path_avoiding(b0, consumer, reassigned, src_idx=i0, edge_ok=side)
+                if pth is None:
+                    rep.ok("Q12", key, sample={"verdict in": var} if n <= 2 else None)
+                else:
+                    hit = None
+                    for e in cfg.elems(pth[-1]):
+                        if consumer(e):
+                            hit = e
+                            break
+                    rep.violation("Q12", key, where,
+                                  "when %s stops at its iteration limit (verdict `%s` non-zero) %s still reaches %s (line %s): the "
+                                  "reaching sets are incomplete then -- a definition more blocks upstream than the limit has not "
+                                  "arrived -- and whatever is computed from them (use/def chains that substitute constants, "
+                                  "propagated copies, removed assignments) is wrong for functions with very long chains of blocks "
+                                  "only, at the optimisation levels that run this pass"
+                                  % (it.get("callee"), var, name, hit.get("callee") if hit else "a consumer", hit["l"] if hit else "?"),
+                                  detail={"cfg_path": pth[:10]})
+    rep.floor("callers of the iteration-limited dataflow engine", n, 7)
+
+
+# forms whose value depends on storage that an inlined body can update before the point where a parameter is used
+STORAGE_READS = ("FOAM_RElt", "FOAM_IRElt", "FOAM_TRElt", "FOAM_RRElt", "FOAM_AElt", "FOAM_EElt", "FOAM_Lex", "FOAM_Glo", "FOAM_Fluid",
+                 "FOAM_CCall", "FOAM_OCall", "FOAM_PCall")
+
+
+def q13(rep):
+    """Inlining replaces a parameter that is used once by the argument expression itself (inlUseParam answers true) instead of
+    evaluating the argument into a temporary before the body.  That moves the argument's evaluation to the place of use.  It is
+    only meaning-preserving when the argument's value cannot change in between: the inliner already refuses non-local variables
+    for that reason.  The same holds for every form that reads updatable storage -- record, array and environment elements,
+    fluids -- and for calls (a call without side effects can still read what the body has written).  inlUseParam is evaluated
+    by the checker (rules/tageval.py) with the argument's tag fixed to each such form and one use: the only possible answer must
+    be false."""
+    from . import tageval
+    f = common.extract("of_inlin.c", all_trees=True)
+    tags = {n: v[1] for n, v in f.enum_by_const.items() if n.startswith("FOAM_")}
+    fn = f.func("inlUseParam")
+    ps = [p_["n"] for p_ in fn["params"]]
+    if len(ps) != 2:
+        raise AnalysisBroken("inlUseParam no longer takes (argument, number of uses)")
+    where = "of_inlin.c:%d (inlUseParam)" % fn["l"]
+    # sanity: the evaluator must still see the decisions it was written for
+    if tageval.TagEval(f, tags["FOAM_Loc"]).run("inlUseParam", {ps[1]: 1}) != {1} or \
+            tageval.TagEval(f, tags["FOAM_Lex"]).run("inlUseParam", {ps[1]: 1}) != {0}:
+        raise AnalysisBroken("inlUseParam: a local variable used once is no longer substituted / a non-local one no longer "
+                             "refused -- the function changed shape, Q13 must be re-derived")
+    for t in STORAGE_READS:
+        vals = tageval.TagEval(f, tags[t]).run("inlUseParam", {ps[1]: 1})
+        key = "argument-not-moved-past-body:%s" % t[5:]
+        if vals == {0}:
+            rep.ok("Q13", key)
+        else:
+            rep.violation("Q13", key, where,
+                          "for an argument of the form (%s ...) used once in the inlined function inlUseParam can answer %s: the "
+                          "argument is substituted at its use instead of being evaluated before the body, so `f(r.x, r)` with a body "
+                          "`r.x := 10; v` reads r.x after the assignment at the optimisation levels that inline (prints 10), and "
+                          "before it otherwise (prints 3)" % (t[5:], sorted("unknown" if v is None else ("true" if v else "false") for v in vals)))
+
+
 def run(tier, only=None):
     rep = common.Report("C02", tier, EXPLANATION)
     f_foam = common.extract("foam.c", trees=["foamHasSideEffect", "foamIsControlFlow"])
@@ -903,6 +1034,8 @@ def run(tier, only=None):
     q7(rep)
     q10(rep)
     q11(rep)
+    q12(rep)
+    q13(rep)
     from . import selfcompare
     selfcompare.report(rep, "Q9", [u for u in common.compiler_units() if u.startswith("of_") or u in ("usedef.c", "flog.c", "dflow.c", "optfoam.c", "inlutil.c", "loops.c", "foam.c")], what="(optimizer)")
     from . import variadic
